@@ -178,7 +178,7 @@ class World:
 
     @staticmethod
     def length_for(k):
-        return [3, 3, 3, 2, 0, 1, 3, 4][k % 8]
+        return [3, 3, 1, 2, 0, 1, 3, 4][k % 8]
 
     def accessor(self, t, i):
         """the accessor serif advertises for column i (read from dir(); names in the world are simple)"""
@@ -406,7 +406,11 @@ class World:
             return None
         n = len(a.obj)
         lo, hi = step[2] % (n + 2) - 1, step[3] % (n + 2)
-        stp = [None, None, 2, -1][step[3] % 4]
+        stp = [None, None, 2, -1, -2, None][step[3] % 6]
+        if step[3] % 5 == 0:
+            hi = None                      # open-ended (with a negative step: down to the first row)
+        elif step[3] % 7 == 0:
+            hi = -n - 3                    # far out of range
         key = slice(lo if lo >= 0 else None, hi, stp)
         si = self._derive("slice", a, lambda: a.obj[key])
         si.info["key"] = key
